@@ -20,7 +20,7 @@ LEVEL_TEXT = ('Exploration: object graphs are built from a family of classes wit
               'pickle.loads(pickle.dumps(g, 2)) (exact types, state, identity of classes/functions/modules/enum members, the same '
               'sharing); a cycle through lists, dicts and plain instances only must be rebuilt, any other cycle must be rebuilt '
               'like pickle or end in ConstructorError. FullLoader must accept a document exactly when its tag set (from compose) '
-              'lies inside core + python/{none..dict, tuple, complex, name:*} and then build the same value, else raise ConstructorError.')
+              'lies inside core + python/{none..dict, tuple, complex, name:*} and then build the same value, else raise ConstructorError.' + ' The family also has a callable instance, eager readers of their state / constructor arguments and reduce states that are false in a boolean context.')
 LEVEL_NOTE = 'Held on the graphs generated; shapes pickle itself cannot rebuild (lambdas, local classes) are not generated.'
 TECHNIQUE = 'runtime monitoring: reference-model oracle (pickle protocol 2 + graph bisimulation) over generated object graphs, 2 dumpers x 2 unsafe loaders + FullLoader acceptance oracle'
 DESIGN_REF = 'DESIGN.md section 3, C17'
